@@ -75,7 +75,7 @@ def ka_scenarios(rng, n):
         if rng.random() < .25:
             # each call passes a functools.partial of the same underlying functions, bound to ITS data
             sc['same_func'] = False
-            sc['func_kind'] = 'partial'
+            sc['func_kind'] = rng.choice(['partial', 'partial_kw'])       # bound to its call by a positional or by a keyword argument
         out.append(sc)
     return out
 
